@@ -301,6 +301,53 @@ theorem wrapper_cjk_routes_chinese (cfg : Cfg) (cs : Str) (hne : cs ≠ [])
 theorem wrapper_plain_passes_through (cfg : Cfg) (c : Option Str) : wrapCulture cfg false c = c := by
   cases c <;> simp [wrapCulture]
 
+/-! ## Default culture, empty culture, letter case of a request
+
+`Recognizer.get_model` first replaces a missing culture (`None`) by the recogniser's target culture and only
+then calls `map_to_nearest_language` — in that order. -/
+
+/-- **target_default_equiv.** A recogniser built with target culture `T` and asked with `culture=None` is
+answered exactly like any recogniser of the same kind and options asked with `culture=T` — same resulting cache,
+same model object or error — for `Recognizer.get_model` and for every getter that does not special-case cultures.
+In particular the target culture goes through the same normalisation (letter case, regional variant) as an
+explicit culture. -/
+theorem target_default_equiv (cfg : Cfg) (k : Nat) (o : Int) (T : Str) (other : Option Str) (t : Str) (fb : Bool)
+    (st : State) :
+    step cfg st (.get ⟨k, some T, o⟩ t none fb) = step cfg st (.get ⟨k, other, o⟩ t (some T) fb) ∧
+    step cfg st (.getW ⟨k, some T, o⟩ t false none fb) = step cfg st (.getW ⟨k, other, o⟩ t false (some T) fb) := by
+  constructor <;> simp [step, recGet, resolve, wrapCulture]
+
+/-- **empty_culture_never_target.** An empty culture string is not "no culture": it never falls back to the
+target culture — it resolves to nothing (English with fallback, ValueError without), whatever the target is. -/
+theorem empty_culture_never_target (cfg : Cfg) (i : Inst) (cjk : Bool) :
+    resolve cfg i (some []) = none ∧ resolve cfg i (wrapCulture cfg cjk (some [])) = none := by
+  constructor <;> simp [resolve, wrapCulture, mapToNearest]
+
+/-- **getter_case_insensitive.** Two culture strings with the same `str.lower()` are routed identically by every
+getter, including the sequence getters with the zh- and ja- shortcut: same state, same model object or error. -/
+theorem getter_case_insensitive (cfg : Cfg) (i : Inst) (t : Str) (cjk : Bool) (c₁ c₂ : Str) (fb : Bool) (st : State)
+    (h₁ : c₁ ≠ []) (h₂ : c₂ ≠ []) (hl : cfg.py.lower c₁ = cfg.py.lower c₂) :
+    step cfg st (.getW i t cjk (some c₁) fb) = step cfg st (.getW i t cjk (some c₂) fb) := by
+  have e₁ : c₁.isEmpty = false := by cases c₁ <;> simp_all
+  have e₂ : c₂.isEmpty = false := by cases c₂ <;> simp_all
+  have key : resolve cfg i (wrapCulture cfg cjk (some c₁)) = resolve cfg i (wrapCulture cfg cjk (some c₂)) := by
+    simp only [wrapCulture, e₁, e₂, hl]
+    split
+    · rfl
+    · simp only [resolve]
+      rw [mapToNearest_some _ _ _ _ h₁, mapToNearest_some _ _ _ _ h₂, hl]
+  simp [step, recGet, key]
+
+/-- Recorded observation (monitored by the correspondence, not judged: the property judges a request by the
+culture it resolves to): the zh- and ja- shortcut of the sequence getters looks at the explicit argument only, so a
+sequence recogniser (kind 3) built with target `ja-jp` and asked without a culture gets the English phone-number
+model, while the same recogniser asked for `ja-jp` explicitly gets the Chinese one. -/
+theorem cjk_shortcut_ignores_target_culture :
+    (step (genCfg asciiPy true) State.init (.getW ⟨3, some jaJp, 0⟩ phoneNumberModel true none true)).2 =
+      .model ⟨⟨3, phoneNumberModel, enUs, 0⟩, 0⟩ ∧
+    (step (genCfg asciiPy true) State.init (.getW ⟨3, some jaJp, 0⟩ phoneNumberModel true (some jaJp) true)).2 =
+      .model ⟨⟨3, phoneNumberModel, zhCn, 0⟩, 0⟩ := by decide +kernel
+
 /-! ## The cache -/
 
 theorem mem_zip_of_mem_outs {α β} (l₁ : List α) (l₂ : List β) (hl : l₂.length = l₁.length) (b : β) (hb : b ∈ l₂) :
